@@ -4,10 +4,14 @@ use serde_json::Value as J;
 
 use crate::core::{replay_report, Ctx, Failure};
 
+pub mod c07;
+pub mod c08;
 pub mod c16;
 
 pub fn run(ctx: &Ctx) -> i32 {
     match ctx.prop {
+        "C07" => c07::run(ctx),
+        "C08" => c08::run(ctx),
         "C16" => c16::run(ctx),
         _ => {
             println!("MACHINERY-ERROR: unknown property {}", ctx.prop);
@@ -18,6 +22,8 @@ pub fn run(ctx: &Ctx) -> i32 {
 
 pub fn replay(prop: &'static str, path: &str) -> i32 {
     let f: Box<dyn Fn(&J) -> Vec<Failure>> = match prop {
+        "C07" => Box::new(c07::replay),
+        "C08" => Box::new(c08::replay),
         "C16" => Box::new(c16::replay),
         _ => {
             println!("MACHINERY-ERROR: unknown property {}", prop);
